@@ -19,7 +19,7 @@ from earthkit.workflows.graph import (
 )
 
 from vf import common
-from vf.graphs import GraphSpec, Interp, Malformed, all_nodes, dag_specs, freeze
+from vf.graphs import GraphSpec, Interp, Malformed, all_nodes, dag_specs, freeze, with_swapped_twins
 
 PROP = "C11"
 
@@ -464,6 +464,12 @@ def specs_for(ctx):
         specs += dag_specs(5, "colliding", payloads=("by-depth",), outputs=("multi",))
     else:
         specs += dag_specs(2, "unique", payloads=("alt",), outputs=("multi",), out_names=("name", "payload"))
+    # nodes with the same payload and parents but swapped input bindings
+    for n in ((3,) if ctx.quick else (3, 4)):
+        for sp in dag_specs(n, "unique", payloads=("all-p",), outputs=("default", "multi")):
+            tw = with_swapped_twins(sp)
+            if tw is not None:
+                specs.append(tw)
     # named outputs next to the default output name
     for n in ((2, 3) if ctx.quick else (2, 3, 4)):
         specs += dag_specs(n, "unique", payloads=("alt",), outputs=("multi",), out_names=("0", "b"))
